@@ -19,10 +19,10 @@ Proof. exact (eq_refl true). Qed.
 
 (* The loop of GetConfigForClient IS the precedence rule over the code's own matchers, for every list. *)
 Theorem c13_select_is_precedence : forall ps sni protos,
-  select tls_keys_lowered tls_alpn_white ps sni protos =
-  precedence (fun p => code_name_match tls_keys_lowered tls_alpn_white p sni)
-             (fun p => code_alpn_match tls_keys_lowered tls_alpn_white p protos) ps.
-Proof. exact (select_is_precedence tls_keys_lowered tls_alpn_white). Qed.
+  select tls_keys_lowered tls_one_mixed_set tls_alpn_white ps sni protos =
+  precedence (fun p => code_name_match tls_keys_lowered tls_one_mixed_set tls_alpn_white p sni)
+             (fun p => code_alpn_match tls_keys_lowered tls_one_mixed_set tls_alpn_white p protos) ps.
+Proof. exact (select_is_precedence tls_keys_lowered tls_one_mixed_set tls_alpn_white). Qed.
 Print Assumptions c13_select_is_precedence.
 
 (* what the precedence rule means: Some i = the FIRST ready provider matching by name; else (none matches by
@@ -46,7 +46,7 @@ Print Assumptions c13_precedence_meaning.
      names (or its unset server_name "") without also being one of its ALPN tokens. *)
 Theorem c13_select_spec : forall ps sni protos,
   no_clash tls_alpn_white ps sni protos = true ->
-  select tls_keys_lowered tls_alpn_white ps sni protos = spec_select true tls_alpn_white ps sni protos.
+  select tls_keys_lowered tls_one_mixed_set tls_alpn_white ps sni protos = spec_select true tls_alpn_white ps sni protos.
 Proof. exact (select_spec tls_alpn_white). Qed.
 Print Assumptions c13_select_spec.
 
@@ -54,7 +54,7 @@ Print Assumptions c13_select_spec.
 Theorem c13_select_spec_present_sni : forall ps sni protos,
   normalize sni <> "" ->
   no_clash tls_alpn_white ps sni protos = true ->
-  select tls_keys_lowered tls_alpn_white ps sni protos = spec_select false tls_alpn_white ps sni protos.
+  select tls_keys_lowered tls_one_mixed_set tls_alpn_white ps sni protos = spec_select false tls_alpn_white ps sni protos.
 Proof.
   intros ps sni protos Hn Hc.
   exact (eq_trans (select_spec tls_alpn_white ps sni protos Hc)
@@ -68,16 +68,16 @@ Example c13_select_example :
              mkP false "x.b.com" [] [] "" false false;
              mkP true "" ["*.b.com"] ["http/1.1"] "svc" true true] in
   no_clash tls_alpn_white ps "X.y.B.com." ["h2"] = true /\
-  select tls_keys_lowered tls_alpn_white ps "X.y.B.com." ["h2"] = Some 2 /\
+  select tls_keys_lowered tls_one_mixed_set tls_alpn_white ps "X.y.B.com." ["h2"] = Some 2 /\
   no_clash tls_alpn_white ps "zzz.org" ["spdy/3"; "HTTP/1.1"] = true /\
-  select tls_keys_lowered tls_alpn_white ps "zzz.org" ["spdy/3"; "HTTP/1.1"] = Some 2 /\
+  select tls_keys_lowered tls_one_mixed_set tls_alpn_white ps "zzz.org" ["spdy/3"; "HTTP/1.1"] = Some 2 /\
   no_clash tls_alpn_white ps "zzz.org" [] = true /\
-  select tls_keys_lowered tls_alpn_white ps "zzz.org" [] = Some 0.
+  select tls_keys_lowered tls_one_mixed_set tls_alpn_white ps "zzz.org" [] = Some 0.
 Proof. vm_compute. repeat split; reflexivity. Qed.
 
 (* The unconditional statement is FALSE: the side condition cannot be dropped. *)
 Definition c13_select_spec_unconditional : Prop := forall ps sni protos,
-  select tls_keys_lowered tls_alpn_white ps sni protos = spec_select true tls_alpn_white ps sni protos.
+  select tls_keys_lowered tls_one_mixed_set tls_alpn_white ps sni protos = spec_select true tls_alpn_white ps sni protos.
 
 (* witness 1 (listed finding tls-select:sni-equals-alpn-token): SNI "h2"; the second context has ALPN h2 and is
    chosen "by name", the rule gives the default (first) context *)
@@ -97,11 +97,18 @@ Proof.
   vm_compute in H. discriminate H.
 Qed.
 
+(* The other variant: were names and protocols kept in two sets (tls_one_mixed_set = false, the shape of the repair),
+   the rule would hold for ALL inputs.  The check reports the listed finding only while the switch says "mixed". *)
+Theorem c13_select_spec_if_separate : forall ps sni protos,
+  select tls_keys_lowered false tls_alpn_white ps sni protos = spec_select true tls_alpn_white ps sni protos.
+Proof. exact (select_spec_separate tls_alpn_white). Qed.
+Print Assumptions c13_select_spec_if_separate.
+
 (* With keys NOT lower-cased (the code before the fix) the statement fails even under the side condition:
    CN "Svc1" never matches the SNI "Svc1".  Kept so that a regression shows which theorem is lost. *)
 Theorem c13_select_unlowered_refuted :
   exists ps sni protos, no_clash tls_alpn_white ps sni protos = true /\
-    select false tls_alpn_white ps sni protos <> spec_select true tls_alpn_white ps sni protos.
+    select false tls_one_mixed_set tls_alpn_white ps sni protos <> spec_select true tls_alpn_white ps sni protos.
 Proof.
   exists [mkP true "a.com" [] [] "" false false; mkP true "Svc1" [] [] "" false false], "Svc1", [].
   split; [vm_compute; reflexivity|vm_compute; discriminate].
